@@ -53,8 +53,8 @@ JOBLIFE = {
     "sim": {"quick": [], "thorough": []},
     "harness": {
         "quick": [
-            {"name": "random-fresh", "args": ["joblife", "-mode", "random", "-seed", "{seed}", "-runs", "200", "-steps", "120", "-fresh"]},
-            {"name": "random-lag", "args": ["joblife", "-mode", "random", "-seed", "{seed}", "-runs", "200", "-steps", "120"]},
+            {"name": "random-fresh", "args": ["joblife", "-mode", "random", "-seed", "{seed}", "-runs", "600", "-steps", "120", "-fresh"]},
+            {"name": "random-lag", "args": ["joblife", "-mode", "random", "-seed", "{seed}", "-runs", "500", "-steps", "120"]},
         ],
         "thorough": [
             {"name": "random-fresh", "args": ["joblife", "-mode", "random", "-seed", "{seed}", "-runs", "3000", "-steps", "130", "-fresh"]},
